@@ -142,6 +142,7 @@ func runX(x *xcase, seed int64) (*xresult, error) {
 		fs := newMemFS()
 		mf := fs.get("/f", true)
 		mf.data, mf.rfail, mf.wfail = append([]byte(nil), initial...), x.rfail, x.wfail
+		mf.unexpectedEOF = (x.flen+x.off+x.n)%2 == 1
 		p, err := newPair(pairOpt{reqServer: true, handlers: fs.handlers(), alloc: x.backend == "reqalloc", maxTx: uint32(x.maxtx), clientOpts: opts})
 		if err != nil {
 			return nil, err
